@@ -2,6 +2,7 @@ package main
 
 import (
 	"fmt"
+	"strings"
 
 	"github.com/evanw/esbuild/internal/compat"
 	"github.com/evanw/esbuild/internal/js_printer"
@@ -62,9 +63,27 @@ func init() {
 			if lineLimit > 0 {
 				e.stat("line-limit")
 			}
-			e.emit(fmt.Sprintf("quote\tunquoted\t%d\t%d\t%d\t%d\t%s", flags, quote, lineLimit, cur, hexU16(text)), guard(func() string {
+			// end-to-end witness: the same string written with \u escapes, printed by esbuild under the same
+			// charset / line limit, must have the same value when Node evaluates the output
+			var lit strings.Builder
+			for _, c := range text {
+				fmt.Fprintf(&lit, "\\u%04x", c)
+			}
+			q := "\""
+			if quote == '`' {
+				q = "`"
+			}
+			opt := []string{"utf8", "ascii"}[flags%2]
+			if lineLimit > 0 {
+				opt += fmt.Sprintf(",ll%d", lineLimit)
+			}
+			if flags/4%2 == 1 {
+				opt += ",platform=node"
+			}
+			src := "\"use strict\";\nconst s1 = " + q + lit.String() + q + ";\np(1, s1.length, Array.from(s1, (c) => c.charCodeAt(0)).join());\n"
+			e.emitW(fmt.Sprintf("quote\tunquoted\t%d\t%d\t%d\t%d\t%s", flags, quote, lineLimit, cur, hexU16(text)), guard(func() string {
 				return hexBytes(js_printer.VerifPrintUnquotedUTF16(text, quote, flags%2 == 1, unsupported, lineLimit, flags/8%2 == 1, cur))
-			}))
+			}), "c01-prog", map[string]string{"source": src, "opt_name": opt})
 		}
 	}
 }
